@@ -5,7 +5,9 @@
 //! usage: corr <suite> <seed> <count> <out-file> [key=value ...]
 //!        corr replay <trace-in> <out-file>         (re-execute the commands of a trace)
 
+mod interp;
 mod ops;
+mod qgen;
 mod rng;
 mod suites;
 mod trace;
